@@ -253,11 +253,24 @@ func suiteC18(r *Run) {
 			var err3 error
 			dstNP := &notProto{A: 5}
 			func() { defer recoverTo(&pan); err3 = ad.c.Copy(dstNP, src) }()
+			// …and pointees that are the zero value of their type (nothing to copy is no reason to accept them)
+			zeroAccepted := ""
+			for zi, z := range []interface{}{new(string), &notProto{}, new(int), new([]byte)} {
+				var ez error
+				func() { defer recoverTo(&pan); _, ez = ad.c.Clone(z) }()
+				if ez == nil && pan == "" && zeroAccepted == "" {
+					zeroAccepted = sprintf("Clone(%T) (zero-valued pointee, #%d)", z, zi)
+				}
+			}
 			ans := "error"
 			if pan != "" {
 				ans = "panic"
-			} else if err1 == nil || err2 == nil || err3 == nil {
+			} else if err1 == nil || err2 == nil || err3 == nil || zeroAccepted != "" {
 				ans = "ok"
+			}
+			if zeroAccepted != "" && pan == "" {
+				r.Violate("cloner/"+ad.name+"/zero-valued-non-proto-not-refused", "a non-nil pointer to something that is not a protobuf message is refused with an error rather than copied shallowly",
+					zeroAccepted+" returned a value and a nil error", c, "ok")
 			}
 			if err3 == nil && pan == "" {
 				r.Violate("cloner/"+ad.name+"/non-proto-destination-not-refused", "a non-nil pointer to something that is not a protobuf message is refused with an error rather than copied shallowly",
